@@ -34,8 +34,21 @@ func (si SuInt64) Compare(other Value) int {
 	if i2, ok := SuIntToInt(other); ok {
 		return cmp.Compare(si.int64, int64(i2))
 	}
-	dn, _ := si.ToDnum()
-	return dnum.Compare(dn, other.(SuDnum).Dnum)
+	return cmpIntDnum(si.int64, other.(SuDnum).Dnum)
+}
+
+// cmpIntDnum compares an integer with a Dnum exactly.
+// Converting the integer to a Dnum would round it to 16 digits.
+func cmpIntDnum(i int64, dn dnum.Dnum) int {
+	if n, ok := dn.ToInt64(); ok {
+		return cmp.Compare(i, n)
+	}
+	if dn.IsInf() || dn.Exp() > 16 {
+		// integer valued but beyond the int64 range
+		return cmp.Compare(0, dn.Sign())
+	}
+	// has a fractional part so less than 1e16 so rounding is harmless
+	return dnum.Compare(dnum.FromInt(i), dn)
 }
 
 func (si SuInt64) Equal(other any) bool {
